@@ -121,6 +121,8 @@ def cases(tier, seed):
                         yield {"k": "twice", "base": name, "lines": lines, "slice": [i, j], "again": k, "nested": nested}
     for g in ("self", "cycle2", "cycle3", "missing", "missing.nested", "dir"):
         yield {"k": "error", "graph": g}
+    for g in OK_GRAPHS:
+        yield {"k": "okgraph", "graph": g}
 
 
 def materialise(lines, plan, subdir=False):
@@ -146,6 +148,17 @@ def materialise(lines, plan, subdir=False):
     return main, files
 
 
+# graphs that are NOT cycles although a name recurs: two different files with one base name, in different directories
+OK_GRAPHS = {
+    "samebase.nested": ({"main.asm": [" ORG $1000", "M1 NOP", " INCLUDE video/defs.asm", " JMP V1"], "video/defs.asm": ["V1 LDA #1", " INCLUDE defs.asm", " RTS"],
+                         "defs.asm": ["D1 LDB #2", " BNE V1"]},
+                        [" ORG $1000", "M1 NOP", "V1 LDA #1", "D1 LDB #2", " BNE V1", " RTS", " JMP V1"]),
+    "samebase.siblings": ({"main.asm": [" INCLUDE a/part.asm", " INCLUDE b/part.asm", " INCLUDE part.asm"], "a/part.asm": ["A1 NOP"], "b/part.asm": ["B1 CLRA"],
+                           "part.asm": ["C1 RTS", " JMP A1"]},
+                          ["A1 NOP", "B1 CLRA", "C1 RTS", " JMP A1"]),
+    "samebase.deep": ({"main.asm": [" INCLUDE x/inc.asm"], "x/inc.asm": [" NOP", " INCLUDE x/y/inc.asm"], "x/y/inc.asm": ["Y1 RTS", " INCLUDE inc.asm"], "inc.asm": [" BRA Y1"]},
+                      [" NOP", "Y1 RTS", " BRA Y1"]),
+}
 ERR_GRAPHS = {
     "self": {"main.asm": [" NOP", " INCLUDE main.asm"]},
     "cycle2": {"main.asm": [" INCLUDE a.asm"], "a.asm": [" NOP", " INCLUDE main.asm"]},
@@ -176,6 +189,22 @@ def check_case(case):
             if created or status == 0 or isinstance(status, str):
                 bad(cell, "command line: not a clean failure", "exit != 0, no file", "status={} files={}".format(status, created))
             res["state"] = cell + ":" + out["kind"]
+            res["transitions"] = 2
+        elif case["k"] == "okgraph":
+            files, flat = OK_GRAPHS[case["graph"]]
+            for fn, content in files.items():
+                if os.path.dirname(fn):
+                    os.makedirs(os.path.dirname(fn), exist_ok=True)
+                open(fn, "w").write("".join(ln + "\n" for ln in content))
+            cell = "graph|" + case["graph"]
+            ref = common.assemble_confirm(flat)
+            got = common.assemble_confirm(files["main.asm"], budget=10)
+            if ref["kind"] != got["kind"]:
+                bad(cell, "outcome differs from the spliced file", common.outcome_brief(ref)[:80], common.outcome_brief(got)[:80])
+            elif ref["kind"] == "OK" and (got["image"] != ref["image"] or got["symbols"] != ref["symbols"]):
+                bad(cell, "image differs from the spliced file", ref["image"].hex()[:60], got["image"].hex()[:60])
+            res["state"] = cell + ":" + ref["kind"]
+            res["nontrivial"] = ref["kind"] == "OK"
             res["transitions"] = 2
         elif case["k"] == "twice":
             lines = case["lines"]
@@ -247,7 +276,9 @@ def check_case(case):
     if viol:
         res["viol"] = viol[:2]
         res["outcome"] = "violation"
-    if case["k"] == "error" or zlib.crc32(repr(case).encode()) % 3001 == 0:
+    if case["k"] == "okgraph":
+        res["sample"] = {"case": case}
+    elif case["k"] == "error" or zlib.crc32(repr(case).encode()) % 3001 == 0:
         res["sample"] = {"case": case if case["k"] == "error" else {"base": case["base"], "plan": case.get("plan", case.get("slice"))}}
     return res
 
@@ -263,7 +294,7 @@ def describe(tier):
                     ") sequence of C02's core alphabet with every label binding",
         "bound": "every single contiguous slice moved to an included file; every pair of disjoint slices; every slice nested in a slice (and a third "
                  "level for programs of <= 4 lines" + (" / <= 11 lines" if tier == "thorough" else "") + "); three consecutive includes; a 3-level wrap of the whole "
-                 "program; include depth 3; included files without any statement (empty / comments only) alone, next to another INCLUDE and nested; included files reached through sub/dir.1/name, ./name, sub/../name, sub/dir.1/../dir.1/name and an absolute path; 6 error graphs (self, 2- and 3-cycles, missing, nested missing, directory)",
+                 "program; include depth 3; included files without any statement (empty / comments only) alone, next to another INCLUDE and nested; included files reached through sub/dir.1/name, ./name, sub/../name, sub/dir.1/../dir.1/name and an absolute path; 3 graphs in which different files share a base name (nested, siblings, three levels); 6 error graphs (self, 2- and 3-cycles, missing, nested missing, directory)",
         "oracle": "Program.process on the including file (cwd = private directory) gives the same image, listing addresses, symbol table and origin "
                   "as the spliced single file (same diagnostic if the base is rejected); a sample of the larger programs also through assembler.py "
                   "--print --symbols --to_bin; missing file / cycle => diagnostic, exit != 0, no output file",
